@@ -22,6 +22,7 @@ import (
 	"strings"
 	"sync"
 	"sync/atomic"
+	"time"
 )
 
 // Outcome classes of one simulated run.
@@ -143,6 +144,10 @@ type Sim struct {
 	lastSite string
 
 	siteHash map[string]uint64
+
+	// parkSig is signalled when a goroutine that the scheduler saw blocked
+	// has finished its operation and parked (see waitForTimer).
+	parkSig chan struct{}
 }
 
 var current atomic.Pointer[Sim]
@@ -169,6 +174,7 @@ func New(cfg Config) *Sim {
 		Sites:    make(map[string]int),
 		Switches: make(map[[2]string]int),
 		siteHash: make(map[string]uint64),
+		parkSig:  make(chan struct{}, 1),
 	}
 }
 
@@ -277,6 +283,10 @@ func (s *Sim) leave(g *gor) {
 		g.state = stParked
 		g.site = g.site + "+woken"
 		s.mu.Unlock()
+		select {
+		case s.parkSig <- struct{}{}:
+		default:
+		}
 		<-g.wake
 		return
 	}
@@ -345,6 +355,9 @@ func (s *Sim) Run(client func()) (res Result) {
 		}
 		if len(runnable) == 0 {
 			s.mu.Unlock()
+			if s.waitForTimer() {
+				continue
+			}
 			break
 		}
 		if s.step >= s.cfg.MaxSteps {
@@ -435,6 +448,42 @@ func (s *Sim) Run(client func()) (res Result) {
 		return s.result(Budget, fair)
 	}
 	return s.result(OK, fair)
+}
+
+// idleHorizon is how far simulated time may jump while nothing is runnable.
+const idleHorizon = 1000 * time.Hour
+
+// waitForTimer is called when no goroutine is runnable. Code under test that
+// waits for a timer (time.After, Timer.C, Sleep, a context deadline) is
+// blocked natively on the bubble's fake clock, which advances only when every
+// goroutine of the bubble is durably blocked: the scheduler therefore blocks
+// too, until a woken goroutine has parked or the horizon passes. Simulated
+// time thus stands still while anything can run, and a timer fires only
+// when the system is otherwise stuck. Costs no real time.
+func (s *Sim) waitForTimer() bool {
+	s.mu.Lock()
+	blocked := false
+	for _, g := range s.gs {
+		if g.state == stBlocked {
+			blocked = true
+		}
+	}
+	s.mu.Unlock()
+	if !blocked {
+		return false
+	}
+	select {
+	case <-s.parkSig: // left over from an ordinary wake-up
+	default:
+	}
+	t := time.NewTimer(idleHorizon)
+	defer t.Stop()
+	select {
+	case <-s.parkSig:
+		return true
+	case <-t.C:
+		return false
+	}
 }
 
 func (s *Sim) result(outcome string, fair bool) Result {
@@ -563,14 +612,18 @@ func StmtYieldAll(site string) {
 	s.enter(site)
 }
 
-// Sleep replaces time.Sleep: time is not modelled, sleeping is yielding.
+// Sleep replaces time.Sleep: a scheduling point, then a sleep on the
+// bubble's fake clock (see waitForTimer).
 func Sleep(d int64, site string) {
 	s := current.Load()
 	if s == nil || s.cur == nil {
 		nativeSleep(d)
 		return
 	}
-	s.enter(site)
+	g := s.enter(site)
+	s.inOp(g)
+	nativeSleep(d)
+	s.leave(g)
 }
 
 // GOMAXPROCS replaces runtime.GOMAXPROCS.
